@@ -32,7 +32,10 @@ RULE_ADDED = (
               'Round 9: link failures right after a request that timed out. '
               ' '
               'Round 10: link failures by power cycle (from the faulted exchange on the device '
-              'is locked in the bootloader). ')
+              'is locked in the bootloader). '
+              ' '
+              'Round 11: second faults also at the very first exchange of the repair (known fin'
+              'ding). ')
 RULE = RULE + " " + RULE_ADDED.strip()
 ASSUMPTIONS = [
     "fault kinds are those of the HID transport (write() < 0, read error, time-out) as the "
